@@ -1845,6 +1845,12 @@ class Engine:
             if not conds:
                 return False
             return SBool(z3.simplify(z3.Or(*conds)))
+        if isinstance(c, ListObj) and not c.is_concrete():
+            # membership in a list of symbolic length: x is one of its elements
+            try:
+                return SBool(z3.Contains(c.content, z3.Unit(self.to_pv(x))))
+            except Unsupported:
+                pass
         if isinstance(c, DictObj):
             if isinstance(x, (SStr, Sym)):
                 keys = list(c.d.keys())
